@@ -991,12 +991,22 @@ func ruleSNOEMPTY(p *Program, r *Reporter) {
 	}
 	n := 0
 	seenFn := map[*ssa.Function]bool{}
-	for _, fn := range filters {
-		for _, g := range p.Reach(fn) {
+	// every function of the package: the store may sit in the caller of a per-table helper
+	for range filters[:1] {
+		for _, g := range p.srcFuncs {
 			if pkgOf(g) != "server" || seenFn[g] {
 				continue
 			}
 			seenFn[g] = true
+			// notifications are built by the methods of server.monitor (the monitor replies
+			// built by the RPC handlers list every requested table, also an empty one)
+			top := g
+			for top.Parent() != nil {
+				top = top.Parent()
+			}
+			if top.Signature.Recv() == nil || !isNamed(top.Signature.Recv().Type(), repoMod+"/server", "monitor") {
+				continue
+			}
 			fc := newFlowCtx(g)
 			for _, b := range g.Blocks {
 				for _, ins := range b.Instrs {
@@ -1630,34 +1640,55 @@ func ruleVJOIN(p *Program, r *Reporter) {
 		sc := c.Common().StaticCallee()
 		return sc != nil && sc.Name() == name && sc.Pkg != nil && sc.Pkg.Pkg.Path() == "sync" && sc.Signature.Recv() != nil && isNamed(deref(sc.Signature.Recv().Type()), "sync", "WaitGroup")
 	}
-	direct, viaGo, goDone := false, false, false
-	var waits []*ssa.BasicBlock
-	for _, b := range run.Blocks {
-		for _, ins := range b.Instrs {
-			switch x := ins.(type) {
-			case *ssa.Call:
-				if x.Call.StaticCallee() == epRun {
-					direct = true
-				} else if fns, _ := p.Callees(x); len(fns) > 0 {
-					for _, f := range fns {
-						if f != nil && pkgOf(f) == "cache" && f != run && callsEpRun(f) && !isWG(x, "Wait") {
-							direct = true
+	// joined(f): f does not return before every event processor it runs has stopped
+	var joined func(f *ssa.Function, depth int) (reaches bool, bad *ssa.Return)
+	joined = func(f *ssa.Function, depth int) (bool, *ssa.Return) {
+		direct, viaGo, goDone := false, false, false
+		var waits []*ssa.BasicBlock
+		var badHelper *ssa.Return
+		for _, b := range f.Blocks {
+			for _, ins := range b.Instrs {
+				switch x := ins.(type) {
+				case *ssa.Call:
+					if isWG(x, "Wait") {
+						waits = append(waits, b)
+						continue
+					}
+					if x.Call.StaticCallee() == epRun {
+						direct = true
+						continue
+					}
+					if fns, _ := p.Callees(x); len(fns) > 0 && depth < 3 {
+						for _, h := range fns {
+							if h == nil || h == f || len(h.Blocks) == 0 {
+								continue
+							}
+							if h == epRun {
+								direct = true
+								continue
+							}
+							if pkgOf(h) != "cache" && !(pkgOf(h) == "" && h.Synthetic != "") {
+								continue
+							}
+							if r2, bad := joined(h, depth+1); r2 {
+								direct = true
+								if bad != nil {
+									badHelper = bad
+								}
+							}
 						}
 					}
-				}
-				if isWG(x, "Wait") {
-					waits = append(waits, b)
-				}
-			case *ssa.Go:
-				fns, _ := p.Callees(x)
-				for _, f := range fns {
-					if f != nil && (f == epRun || callsEpRun(f)) {
-						viaGo = true
-						for _, h := range p.Reach(f) {
-							for _, hb := range h.Blocks {
-								for _, hi := range hb.Instrs {
-									if isWG(hi, "Done") {
-										goDone = true
+				case *ssa.Go:
+					fns, _ := p.Callees(x)
+					for _, h := range fns {
+						if h != nil && (h == epRun || callsEpRun(h)) {
+							viaGo = true
+							for _, hh := range p.Reach(h) {
+								for _, hb := range hh.Blocks {
+									for _, hi := range hb.Instrs {
+										if isWG(hi, "Done") {
+											goDone = true
+										}
 									}
 								}
 							}
@@ -1666,29 +1697,42 @@ func ruleVJOIN(p *Program, r *Reporter) {
 				}
 			}
 		}
+		if !direct && !viaGo {
+			return false, nil
+		}
+		if badHelper != nil {
+			return true, badHelper
+		}
+		if viaGo {
+			for _, b := range f.Blocks {
+				ret, ok := b.Instrs[len(b.Instrs)-1].(*ssa.Return)
+				if !ok || isRecoverBlock(b) {
+					continue
+				}
+				j := false
+				for _, w := range waits {
+					if w == b || w.Dominates(b) {
+						j = true
+					}
+				}
+				if !j || !goDone {
+					return true, ret
+				}
+			}
+		}
+		return true, nil
 	}
-	if !direct && !viaGo {
+	reaches, bad := joined(run, 0)
+	if !reaches {
 		r.Anchor(id, "TableCache.Run does not reach eventProcessor.Run")
 		return
 	}
-	for _, b := range run.Blocks {
-		ret, ok := b.Instrs[len(b.Instrs)-1].(*ssa.Return)
-		if !ok || isRecoverBlock(b) {
-			continue
-		}
-		ok2 := direct && !viaGo
-		if viaGo {
-			joined := false
-			for _, w := range waits {
-				if w == b || w.Dominates(b) {
-					joined = true
-				}
-			}
-			ok2 = joined && goDone
-		}
-		r.Ob(id, funcName(run), "returns only after the event processor stopped", ret.Pos(), ok2, true,
-			ifs(ok2, "the processor runs in this goroutine, or its goroutine is waited for before returning", "TableCache.Run can return while the event processor it started is still running: the client reconnects and starts a second one on the same queue, and handlers see events out of order"))
+	pos := run.Pos()
+	if bad != nil {
+		pos = bad.Pos()
 	}
+	r.Ob(id, funcName(run), "returns only after the event processor stopped", pos, bad == nil, true,
+		ifs(bad == nil, "the processor runs in this goroutine, or its goroutine is waited for before returning", "TableCache.Run can return while the event processor it started is still running: the client reconnects and starts a second one on the same queue, and handlers see events out of order"))
 }
 
 // ---------------------------------------------------------------------------
